@@ -28,6 +28,7 @@ type c08Q struct {
 	q    *store.FileQueue
 	ldb  *leveldb.LevelDBDatabase
 	dir  string
+	staleTail bool // tmp.data holds records BEHIND the pending ones (set by crash())
 	pend []c08Rec // mirror of the writer's channel (oldest first)
 	done []c08Rec // acknowledged by the "writer", in order
 }
@@ -97,6 +98,14 @@ func (x *c08Q) crash() (line string, lost []string, pendingNotInWal bool) {
 	// every acknowledged-but-unpersisted record must still be in tmp.data (as a suffix, in order)
 	if len(x.pend) > len(wal) || !c08SameRecs(wal[len(wal)-min(len(wal), len(x.pend)):], x.pend) {
 		pendingNotInWal = true
+		// the pending records ARE in the file, but other (older) records follow them: not a removed file but
+		// stale records behind a rewound write position
+		for i := 0; i+len(x.pend) < len(wal); i++ {
+			if len(x.pend) > 0 && c08SameRecs(wal[i:i+len(x.pend)], x.pend) {
+				x.staleTail = true
+				break
+			}
+		}
 	}
 	return fmt.Sprintf("rec=[%s] lost=[%s]", strings.Join(lines, ","), strings.Join(lost, ",")), lost, pendingNotInWal
 }
@@ -258,7 +267,11 @@ func c08QueueTie(c *Ctx, base string) {
 				}
 				if len(rlost) > 0 && !reported {
 					reported = true
-					c08Fail(c, "c08/acked-record-lost/wal-removed-with-record-pending", fmt.Sprintf("FileQueue + real restart: after op %d of sequence %d (index %v, %d record(s) pending) a restart on a copy of the directory serves other values than acknowledged for %v", i, seq, q.VerifIndexDump(), len(x.pend), rlost), map[string]interface{}{"level": "FileQueue+BeansDB restart", "sequence": seq, "op": i})
+					rsig := "c08/acked-record-lost/wal-removed-with-record-pending"
+					if x.staleTail {
+						rsig = "c08/stale-record-redelivered/stale-records-behind-rewound-offset"
+					}
+					c08Fail(c, rsig, fmt.Sprintf("FileQueue + real restart: after op %d of sequence %d (index %v, %d record(s) pending) a restart on a copy of the directory serves other values than acknowledged for %v", i, seq, q.VerifIndexDump(), len(x.pend), rlost), map[string]interface{}{"level": "FileQueue+BeansDB restart", "sequence": seq, "op": i})
 				}
 			}
 			if (len(lost) > 0 || pnw) && !reported {
@@ -266,6 +279,9 @@ func c08QueueTie(c *Ctx, base string) {
 				sig := "c08/acked-record-lost"
 				if pnw {
 					sig += "/wal-removed-with-record-pending"
+				}
+				if x.staleTail {
+					sig = "c08/stale-record-redelivered/stale-records-behind-rewound-offset"
 				}
 				c08Fail(c, sig, fmt.Sprintf("FileQueue: after op %d of sequence %d the index is %v with %d record(s) still only in the writer's channel; tmp.data holds %d record(s); a crash now loses acknowledged writes of %v", i, seq, q.VerifIndexDump(), len(x.pend), len(x.walRecs()), lost), map[string]interface{}{"level": "FileQueue", "sequence": seq, "op": i})
 			}
